@@ -34,6 +34,21 @@ theorem creatorVisible_iff (s : Snapshot) (t : Nat) :
     creatorVisible {} s t = true ↔ t = s.xid ∨ (t ≤ s.xmax.getD 0 ∧ t ∉ s.active ∧ t ∉ s.aborted) := by
   simp only [creatorVisible, Bool.or_eq_true, decide_eq_true_eq, committedBefore_iff]
 
+/-- `Snapshot::is_tuple_visible` (not used by any reader) agrees with the rule of the readers except for the reader's own
+    undeleted version, which it judges by the committed-before test. -/
+theorem isTupleVisible_eq (s : Snapshot) (tmin : Nat) (tmax : Option Nat) (h : tmin ≠ s.xid) :
+    isTupleVisible {} s tmin tmax
+      = (committedBefore {} s tmin && !(match tmax with | some x => committedBefore {} s x | none => false)) := by
+  unfold isTupleVisible
+  have : decide (tmin = s.xid) = false := by simp [h]
+  rw [this]
+  cases hc : committedBefore {} s tmin <;> cases tmax <;> simp
+
+theorem isTupleVisible_own_undeleted (s : Snapshot) :
+    isTupleVisible {} s s.xid none = committedBefore {} s s.xid := by
+  unfold isTupleVisible
+  cases hc : committedBefore {} s s.xid <;> simp
+
 /-- the specification in words: nothing if the deleter is visible, otherwise the newest version with a visible creator -/
 theorem specVisible_none_of_deleted (s : Snapshot) (L : LRow) (x : Nat) (hd : L.deleter = some x)
     (hx : creatorVisible {} s x = true) : specVisible {} s L = none := by
